@@ -172,7 +172,7 @@ def exec_case(ctx, r, exhaustive=False):
     except RuntimeError:
         ctx.stat("oracle_runtimeerror_discarded")
         return
-    if n <= 120 and not split_inequality_ok(C, n, lo):
+    if not split_inequality_ok(C, n, lo):
         ctx.stat("premise_failed_discarded")
         return
     F = reference_op(C, n, msl, beta)
@@ -246,7 +246,7 @@ def direct_case(ctx, r):
     except Exception as ex:
         ctx.violation(sub, "exception", f"{label}: {type(ex).__name__}: {ex}", r)
         return
-    if n <= 120 and not split_inequality_ok(C, n, lo):
+    if not split_inequality_ok(C, n, lo):
         ctx.stat("premise_failed_discarded")
         return
     F = reference_op(C, n, msl, float(pen))
